@@ -44,6 +44,67 @@ FACET_ACCESSORS = ('facet_index', 'facet_vertices', 'facet_vertex_keys', 'vertic
                    'opposite_vertex_key')
 
 
+INSERT_CELL = T + 'insert_cell_with_mapping'
+CELL_REMOVERS = ('remove_cell_by_key', 'remove_cells_by_keys', 'remove_cell', 'pop', 'truncate', 'swap_remove', 'retain', 'clear')
+
+
+def _fancover(ctx, cfg, prog, mod):
+    """FANCOVER: the fan closes the cavity only if every boundary facet that does not already contain the apex gets
+    its cone.  In `fan_fill_cavity`, inside the loop over the boundary facets: (a) nothing removes a cell or shrinks
+    the list of new cells; (b) every cycle passes the insertion of a cell or the true edge of the `contains(apex)`
+    test (every other way out of an iteration leaves the function)."""
+    import loops
+    b = ctx.anchor(cfg, FAN)
+    if b is None:
+        return
+    al = mod.aliases(FAN)
+    lps = loops.natural_loops(b)
+    ins = [bb for bb, t in b.calls() if (t.resolved or t.callee) == INSERT_CELL]
+    site = '%s:%d' % (b.file, b.line)
+    outer = [(h, nodes) for h, nodes in lps.items() if any(x in nodes for x in ins)]
+    if not ins or not outer:
+        ctx.ob('FANCOVER', FAN, cfg, False, 'no loop that inserts a cell per boundary facet found', site=site)
+        return
+    h, nodes = max(outer, key=lambda x: len(x[1]))
+    removers = []
+    for bb in sorted(nodes):
+        t = b.blocks[bb].term
+        if t.k == 'call' and (t.callee or t.resolved or '').rsplit('::', 1)[-1] in CELL_REMOVERS:
+            ty = b.locals[t.args[0].place.local] if t.args and t.args[0].place is not None else ''
+            tt = al.operand_target(t.args[0]) if t.args else None
+            if 'Tds<' in ty or 'CellKey' in ty or (tt is not None and ('cells',) == tuple(tt[1][-1:])):
+                removers.append((t.callee or t.resolved or '').rsplit('::', 1)[-1] + '@L%d' % t.line)
+    skip_edges = set()
+    for bb in sorted(nodes):
+        t = b.blocks[bb].term
+        if t.k == 'call' and (t.callee or t.resolved or '').rsplit('::', 1)[-1] in ('contains', 'contains_vertex'):
+            skip_edges |= flow.call_flow(b, bb).ok_edges
+    # a cycle through the header that avoids both the insertion and the apex-skip edge?
+    seen = set()
+    work = [(h, s_) for s_ in b.succs(h)]
+    free = False
+    while work:
+        (a_, x) = work.pop()
+        if (a_, x) in skip_edges or x not in nodes or x in ins:
+            continue
+        if x == h:
+            free = True
+            break
+        if x in seen:
+            continue
+        seen.add(x)
+        for s_ in b.succs(x):
+            work.append((x, s_))
+    ok = not removers and not free
+    ctx.ob('FANCOVER', FAN, cfg, ok,
+           'loop over the boundary facets: cell insertions %d, apex-skip edges %d; %s' % (len(ins), len(skip_edges),
+               'every iteration inserts a cone or skips a facet containing the apex' if ok else
+               ('cells are removed again inside the loop (%s)' % removers if removers else
+                'an iteration can finish without inserting a cone and without the apex test') +
+               ': a boundary facet is left open, the removal returns Ok with a slit in the complex (Level 3 fails later)'),
+           site=site)
+
+
 def _slice_up(prog, mod, body, local, depth=0, seen=None):
     """Backward slice through crate callees, closure captures and - when it ends at a parameter - the arguments at
     every call site of that function (the apex may be handed to a helper that builds the fan)."""
@@ -130,6 +191,7 @@ def run(ctx):
     ctx.rule('POSTFILL', 'fan retriangulation Ok lies behind the local facet / orientation / incidence checks')
     ctx.rule('REPAIR', 'when the repair policy fires, Ok lies behind the success edge of the flip repair')
     ctx.rule('APEX', 'the fan apex depends on the facet (opposite-vertex) index or is compared with the removed vertex')
+    ctx.rule('FANCOVER', 'the fan fill closes every boundary facet that does not contain the apex')
     ctx.rule('POSTVALID', 'fan retriangulation Ok lies behind a cumulative Level 3 validation of the result')
     for cfg in ctx.cfgs:
         prog = ctx.prog(cfg)
@@ -228,6 +290,7 @@ def run(ctx):
                 ctx.ob('POSTVALID', '%s|%s' % (TRI_RM, lname), cfg, r['ok'], detail, site='%s:%d' % (cb.file, cb.line))
         # ---- APEX: the fan apex is chosen so that it cannot be the removed vertex itself
         _apex(ctx, cfg, prog, mod)
+        _fancover(ctx, cfg, prog, mod)
         # ---- REPAIR
         b = prog.bodies[DT_RM]
         te = gate.predicate_edges(b, {SHOULD}, True)
